@@ -13,6 +13,9 @@ LEVEL_TEXT = ("bounded symbolic model checking: (1) layout::reserve/add_union fo
 ENTRIES = ['c13_alt2', 'c13_or2', 'c13_ifelse', 'c13_alt_in_alt']
 BASE = {'c13_alt2': 'c01_alt2', 'c13_or2': 'c01_or2', 'c13_ifelse': 'c01_ifelse', 'c13_alt_in_alt': 'c01_alt_in_alt'}
 
+BUILT = ['c13_built_ifelse', 'c13_built_alt2', 'c13_built_or2']
+BUILT_BASE = {'c13_built_ifelse': 'c01_ifelse', 'c13_built_alt2': 'c01_alt2', 'c13_built_or2': 'c01_or2'}
+
 def modules(ctx):
     T, MC = 2, 1
     ml = V.Module(ctx, 'c13l', ['layout.cc'], 'c13.cc', ['c13_layout_reserve', 'c13_layout_union'], native_libs=('-ldl',))
@@ -20,7 +23,9 @@ def modules(ctx):
                   native_tus=V.ALL_CORE[:-3] if False else C01.ALL_CORE, empties=('_ZN10value_type13register_type',))
     mg = V.Module(ctx, 'c13g', C01.CORE_TUS, 'c13b.cc', ['c13_guard_ok', 'c13_guard_throw'], native_libs=('-ldl',), native_tus=C01.ALL_CORE,
                   empties=('_ZN10value_type13register_type',))
-    return {'c13l': ml, 'c13o': mo, 'c13g': mg}
+    mb = V.Module(ctx, 'c13b', C01.CORE_TUS + ['build.cc', 'bindings.cc', 'tree.cc', 'tree_cr.cc'], 'c13c.cc', BUILT, defs=('VP_T=%d' % T, 'VP_MAXC=%d' % MC),
+                  native_libs=('-ldl',), native_tus=C01.ALL_CORE, empties=('_ZN10value_type13register_type',))
+    return {'c13l': ml, 'c13o': mo, 'c13g': mg, 'c13b': mb}
 
 def run(ctx):
     mods = modules(ctx)
@@ -54,6 +59,24 @@ def run(ctx):
                 ctx, mods['c13o'], e, 7, harness_unwind=chunk + 20, timeout=900, bounds='scenarios x pulls [%d,%d)' % (lo, hi),
                 object_bits=14, cdefs=('VP_LO=%d' % lo, 'VP_HI=%d' % hi), label='%s[%d:%d]' % (e, lo, hi), tv_seeds=0,
                 extra=('--memory-leak-check',)))
+    # graphs and state layout produced by the real builder (build.cc) for trees of stub builtins
+    ctx.bounds['built'] = ('if-then-else / ALT / OR trees built by tree::build_exec; quick: if-then-else, every (input count, epoch split) for 8 result-count vectors (condition yields for none / first / second / both inputs; '
+                           'arms yield for both inputs, or then for the first and else for the second); thorough: every valid scenario of all three')
+    for e in (BUILT if ctx.tier != 'quick' else ['c13_built_ifelse']):
+        if ctx.only and e not in ctx.only:
+            continue
+        valid, total = C01.valid_scenarios(BUILT_BASE[e], T, MC)
+        # scenario = (n, first) + 9 * count vector: one solver run per count vector (chunk of 9, invalid members return at once)
+        vectors = sorted(set(k // 9 for k in valid))
+        if ctx.tier == 'quick':
+            # condition yields for neither / the first / the second / both inputs; arms: both yield for both inputs (60..63), or then for the first and
+            # else for the second input only (36..39)
+            vectors = [j for j in vectors if 36 <= j <= 39 or 60 <= j <= 63]
+        for j in vectors:
+            lo, hi = 9 * j, 9 * j + 9
+            jobs.append(lambda e=e, lo=lo, hi=hi: V.run_entry(
+                ctx, mods['c13b'], e, 8, harness_unwind=80, timeout=900, bounds='scenarios [%d,%d): every (inputs, epoch split) for one result-count vector' % (lo, hi),
+                object_bits=14, cdefs=('VP_LO=%d' % lo, 'VP_HI=%d' % hi), label='%s[%d:%d]' % (e, lo, hi), tv_seeds=0))
     V.run_parallel(jobs, workers=int(os.environ.get('VP_JOBS', '15')))
 
 def replay(ctx, js):
